@@ -243,7 +243,9 @@ func applyIfExistsConfig(t rel.Tuple, dir string, fs afero.Fs, dryRun bool) (err
 			return err
 		}
 		if dryRun {
-			return nil
+			// Validate the replacement content before anything is removed, the
+			// way it will be applied: onto a target that no longer exists.
+			return applyFilesFields(t, dir, afero.NewMemMapFs(), dryRun)
 		}
 		if err := fs.RemoveAll(dir); err != nil {
 			return err
